@@ -10,6 +10,7 @@ import (
 	"sort"
 	"strings"
 	"sync"
+	"sync/atomic"
 	"time"
 	"unsafe"
 
@@ -112,9 +113,15 @@ type World struct {
 	YieldOnWrite bool
 	// YieldOnDial makes every dial a schedule point.
 	YieldOnDial bool
+	restoreDial func()
 }
 
 const Addr = "srv:1"
+
+var (
+	defaultDialOnce sync.Once
+	defaultDialNet  atomic.Pointer[vnet.Net]
+)
 
 // NewWorld builds the server side. It must be called on a scheduler-registered goroutine.
 func NewWorld(s *vsched.Sched, opts ...jsonrpc.ServerOption) *World {
@@ -193,8 +200,35 @@ func (w *World) HTTPClient(ns string, out interface{}, opts ...jsonrpc.Option) (
 	return jsonrpc.NewMergeClient(w.Ctx, "http://"+Addr+"/rpc", ns, []interface{}{out}, nil, opts...)
 }
 
+// DefaultHTTPClient creates an HTTP client that uses the library's own default http.Client
+// (no WithHTTPClient option), dialling into the in-memory network through a build-tagged hook.
+func (w *World) DefaultHTTPClient(ns string, out interface{}, opts ...jsonrpc.Option) (jsonrpc.ClientCloser, error) {
+	// The default client is process-wide: its dial function is replaced once and for all by one
+	// that looks up the network of the current execution (and fails when there is none, e.g. a
+	// dial queued by the transport's connection limit that is only served during teardown).
+	defaultDialOnce.Do(func() {
+		jsonrpc.VerifSetDefaultDial(func(ctx context.Context, network, addr string) (net.Conn, error) {
+			n := defaultDialNet.Load()
+			if n == nil {
+				return nil, fmt.Errorf("verif: no in-memory network is current")
+			}
+			return n.DialContext(ctx, network, addr)
+		})
+	})
+	defaultDialNet.Store(w.Net)
+	w.restoreDial = func() {
+		defaultDialNet.Store(nil)
+		jsonrpc.VerifCloseDefaultIdle()
+	}
+	return jsonrpc.NewMergeClient(w.Ctx, "http://"+Addr+"/rpc", ns, []interface{}{out}, nil, opts...)
+}
+
 // Teardown releases everything so that the goroutines of the execution can finish.
 func (w *World) Teardown() {
+	if w.restoreDial != nil {
+		w.restoreDial()
+		w.restoreDial = nil
+	}
 	w.Cancel()
 	w.SrvCancel()
 	w.Net.CloseAll()
